@@ -803,6 +803,21 @@ func runC16(r *core.Run, tier string) {
 	r.Assume("termination is decided as CPU time <= 10 s on inputs <= 64 KiB (three orders of magnitude above normal cost); the wall-clock watchdog only yields 'inconclusive'", "after an injected failure of the output write itself a partial gen file may remain; exit status and diagnostic are still required", "strace -P restricts injection to syscalls on the output path")
 	rng := core.NewRand(r.SeedV, "c16")
 	work := c16Workload(env, tier, rng)
+	// debugging aid (never set by the registered commands): keep only the mutant classes with one of
+	// the given prefixes, e.g. VERIF_C16_CLASSES=line-ending,byte-insert
+	if only := os.Getenv("VERIF_C16_CLASSES"); only != "" {
+		var kept []*c16Exec
+		for _, e := range work {
+			for _, pre := range strings.Split(only, ",") {
+				if strings.HasPrefix(e.class, pre) {
+					kept = append(kept, e)
+					break
+				}
+			}
+		}
+		work = kept
+		r.Assume("PARTIAL RUN: VERIF_C16_CLASSES=" + only + " restricts the mutant classes (debugging aid)")
+	}
 	faults := c16FaultRuns(env, fc, tier)
 	// fault-free baselines for the fault runs
 	for _, f := range faults {
